@@ -409,6 +409,8 @@ func (c *fakeConn) isClosed() bool { c.mu.Lock(); defer c.mu.Unlock(); return c.
 
 type pendingDial struct {
 	addr   string
+	seq    int // order of the GetNewAddress call that produced the address (canonical identity of the dial)
+	done   bool
 	answer chan error
 }
 
@@ -440,6 +442,7 @@ func runCM(t *testing.T, target int, policy string, evs []cmEv) (res cmResult) {
 		var open []est
 		addrN := 0
 		bannedAddrs := map[string]bool{}
+		addrSeq := map[net.Addr]int{}
 		log := zerolog.Nop()
 		var cm *connmgr.ConnManager
 		cfg := &connmgr.Config{
@@ -449,20 +452,28 @@ func runCM(t *testing.T, target int, policy string, evs []cmEv) (res cmResult) {
 			GetNewAddress: func() (net.Addr, error) {
 				mu.Lock()
 				defer mu.Unlock()
+				var a *net.TCPAddr
 				if policy == "single" {
 					if bannedAddrs["10.5.0.1:8333"] {
 						addrN++
-						return &net.TCPAddr{IP: net.ParseIP(fmt.Sprintf("10.6.0.%d", addrN%250+1)), Port: 8333}, nil
+						a = &net.TCPAddr{IP: net.ParseIP(fmt.Sprintf("10.6.0.%d", addrN%250+1)), Port: 8333}
+					} else {
+						a = &net.TCPAddr{IP: net.ParseIP("10.5.0.1"), Port: 8333}
 					}
-					return &net.TCPAddr{IP: net.ParseIP("10.5.0.1"), Port: 8333}, nil
+				} else {
+					addrN++
+					a = &net.TCPAddr{IP: net.ParseIP(fmt.Sprintf("10.5.%d.%d", addrN/250, addrN%250+1)), Port: 8333}
 				}
-				addrN++
-				return &net.TCPAddr{IP: net.ParseIP(fmt.Sprintf("10.5.%d.%d", addrN/250, addrN%250+1)), Port: 8333}, nil
+				// every request gets its own address object: the pointer identifies the request
+				// when the manager dials it
+				addrSeq[a] = len(addrSeq)
+				return a, nil
 			},
 			BanAddress: func(a string) { mu.Lock(); bannedAddrs[a] = true; mu.Unlock() },
 			Dial: func(a net.Addr) (net.Conn, error) {
 				d := &pendingDial{addr: a.String(), answer: make(chan error, 1)}
 				mu.Lock()
+				d.seq = addrSeq[a]
 				dials = append(dials, d)
 				mu.Unlock()
 				if err := <-d.answer; err != nil {
@@ -501,13 +512,21 @@ func runCM(t *testing.T, target int, policy string, evs []cmEv) (res cmResult) {
 				res.Problems = append(res.Problems, fmt.Sprintf("%s: %d outbound connections are open, more than the target %d", where, n, target))
 			}
 		}
+		// the dial that is answered next is the pending one whose address was handed out first - a
+		// canonical choice: the order in which the manager's goroutines got to call Dial is not
 		answer := func(err error) bool {
 			mu.Lock()
-			if answered >= len(dials) {
+			var d *pendingDial
+			for _, c := range dials {
+				if !c.done && (d == nil || c.seq < d.seq) {
+					d = c
+				}
+			}
+			if d == nil {
 				mu.Unlock()
 				return false
 			}
-			d := dials[answered]
+			d.done = true
 			answered++
 			mu.Unlock()
 			d.answer <- err
@@ -579,8 +598,11 @@ func runCM(t *testing.T, target int, policy string, evs []cmEv) (res cmResult) {
 		cm.Stop()
 		// release dials that are still waiting so that their goroutines end
 		mu.Lock()
-		for i := answered; i < len(dials); i++ {
-			dials[i].answer <- errors.New("shutdown")
+		for _, d := range dials {
+			if !d.done {
+				d.done = true
+				d.answer <- errors.New("shutdown")
+			}
 		}
 		mu.Unlock()
 		synctest.Wait()
